@@ -379,6 +379,7 @@ def run(F, res, tier):
     statement_blocks_and_field_access(F, res)
     module_names_are_positional(F, res)
     qualified_types_do_not_fall_back(F, res)
+    lowering_visits_every_child(F, res)
     # ---- S4
     rn = F.fn("ide::def::resolver::Resolver::resolve_name")
     names = [(b, FL.short(callee(t) or callee_def(t))) for b, t in rn.calls()]
@@ -1000,3 +1001,56 @@ def qualified_types_do_not_fall_back(F, res, rule="S15"):
                 bad.append("%s line %d" % (FL.short(u.path), t["ln"]))
     res.ob(rule, "type-name/no-unqualified-fallback", "a qualified type name is never resolved through the unqualified lookup of the current module",
            sites > 0 and not bad, where=f.loc(), how="unqualified lookups: %d; reached although a module qualifier may be present: %s" % (sites, bad))
+
+
+def lowering_visits_every_child(F, res, rule="S16"):
+    """S16: scopes, inference and every feature work on the lowered body. An AST node the lowering turns into `Missing` without
+    looking inside takes everything written in it out of the analysis: the names in it resolve to nothing or - for a lambda, a
+    block or a case in it - through the enclosing scope to a *different* declaration than the one Gleam binds. For every
+    variant of ast::Expr / ast::Pattern whose node type has an accessor that (transitively) yields expressions, patterns or
+    statements, the arm of BodyLowerCtx::lower_expr / lower_pattern for it calls such an accessor (the catch-all arm calls none)."""
+    from rules import c04 as _c04
+    acc = _c04.accessors(F)
+    ROOTS = {"syntax::ast::Expr", "syntax::ast::Pattern", "syntax::ast::StatementExpr", "syntax::ast::Block"}
+    bearing = set(ROOTS)
+    changed = True
+    while changed:
+        changed = False
+        for node, lst in acc.items():
+            if node not in bearing and any(T in bearing for _m, T, _i in lst):
+                bearing.add(node)
+                changed = True
+    n = 0
+    for fn_name, enum in (("lower_expr", "syntax::ast::Expr"), ("lower_pattern", "syntax::ast::Pattern")):
+        fn = F.fn("ide::def::body::BodyLowerCtx::" + fn_name)
+        d = FL.Defs(fn)
+        b0, t = match_on(fn, d, enum)
+        if t is None:
+            res.anchor_missing(rule, "match on %s in %s" % (enum, fn_name))
+            continue
+        dm = F.discr_map(enum)
+        inv = {nm: v for v, nm in dm.items()}
+        tg, reach = regions(fn, t)
+        common = set.intersection(*reach.values()) if len(reach) > 1 else set()
+        a = F.adt(enum)
+        for v in a["variants"]:
+            node = v["fields"][0]["ty"] if v["fields"] else None
+            if node not in bearing:
+                continue
+            bear = sorted(m for m, T, _i in acc.get(node, []) if T in bearing)
+            n += 1
+            target = tg.get(inv[v["name"]], t["otherwise"])
+            region = reach[target] - common if target != t["otherwise"] or len(reach) > 1 else reach[target]
+            called = set()
+            for bb in region:
+                tt = fn.term(bb)
+                if tt["k"] == "call":
+                    c = callee(tt) or callee_def(tt) or ""
+                    if c.startswith(node + "::"):
+                        called.add(c.rsplit("::", 1)[-1])
+            # closures created in the arm (`.map(|clause| ..)`) look at children of children; the node's own accessor is called in the arm
+            ok = bool(called & set(bear))
+            res.ob(rule, "%s/%s" % (fn_name, v["name"]), "%s lowers what is written inside a %s (it calls one of the accessors %s)" % (fn_name, v["name"], bear),
+                   ok, where=fn.loc(t["ln"]), how="accessors called in the arm: %s" % sorted(called) if called or target != t["otherwise"]
+                   else "falls into the catch-all arm: lowered to Missing, its children never reach scopes or inference")
+    res.floor("expression-bearing AST variants lowered", n, 20)
